@@ -189,10 +189,34 @@ func EvalAt(e ast.Expr, cur, root jv.Val) Res {
 	return Res{V: v}
 }
 
-func (in *interp) eval(e ast.Expr, cur jv.Val, sc *scope, pdepth int) jv.Val {
-	if in.f.undet != "" {
+// iso runs f with a clean fault state and merges what f recorded into the
+// enclosing state afterwards. Inside f, failed() therefore means "something in
+// this subtree failed"; independent siblings (operands, arguments,
+// multi-select fields, projected elements) are all evaluated, so that the set
+// of categories of every fault that could be reported first is collected --
+// the library may evaluate siblings in any order (multi-select hashes and let
+// bindings are Go maps).
+func (in *interp) iso(f func() jv.Val) jv.Val {
+	saved := in.f
+	in.f = fault{}
+	v := f()
+	mine := in.f
+	in.f = saved
+	in.f.err |= mine.err
+	if in.f.undet == "" {
+		in.f.undet = mine.undet
+	}
+	if mine.err != 0 || mine.undet != "" {
 		return jv.VNull()
 	}
+	return v
+}
+
+func (in *interp) eval(e ast.Expr, cur jv.Val, sc *scope, pdepth int) jv.Val {
+	return in.iso(func() jv.Val { return in.eval1(e, cur, sc, pdepth) })
+}
+
+func (in *interp) eval1(e ast.Expr, cur jv.Val, sc *scope, pdepth int) jv.Val {
 	switch e := e.(type) {
 	case *ast.Binary:
 		return in.binary(e, cur, sc, pdepth)
